@@ -245,6 +245,12 @@ def _solver(name):
     raise ValueError(name)
 
 
+def _params(sname):
+    """A wrong block can make the SOC program non-convex for Gurobi (spatial branching without end):
+    bound every Gurobi call; a time-out surfaces as 'no solution'."""
+    return {'TimeLimit': 30} if sname == 'grb' else {}
+
+
 def _licence_limited(e):
     """Gurobi's size-limited licence refusing a model is an environment limit, not a verdict."""
     return type(e).__name__ == 'GurobiError' and 'size-limited' in str(e)
@@ -381,7 +387,7 @@ def _replay_model(job, phase):
         sv = _solver(sname)
         phase[0] = 'soc_solve'
         try:
-            m2.soc_solve(sv, degree=L, display=False)
+            m2.soc_solve(sv, degree=L, display=False, params=_params(sname))
         except Exception as e:                                    # noqa
             if not _licence_limited(e):
                 raise
@@ -391,7 +397,7 @@ def _replay_model(job, phase):
             m2, exact = build_struct_model(desc)
             p0 = m2.do_math()
             c0 = capture(p0)
-            m2.soc_solve(sv, degree=L, display=False)
+            m2.soc_solve(sv, degree=L, display=False, params=_params(sname))
         res['v_soc'] = _get(m2)
         full = _full_status(sname, m2.solution.status)
         phase[0] = 'do_math-after'
@@ -400,7 +406,7 @@ def _replay_model(job, phase):
         f_obs = mutation_finding(s0, s1, 'm.do_math() before / after m.soc_solve()', dict(base))
         phase[0] = 'soc_solve-again'
         try:
-            m2.soc_solve(sv, degree=L, display=False)
+            m2.soc_solve(sv, degree=L, display=False, params=_params(sname))
             res['v_again'] = _get(m2)
             if not _close(res['v_again'], res['v_soc'], 10 * TOL_SOC):
                 conseq['second_soc_solve'] = 'optimum %.9g, first call %.9g' % (res['v_again'], res['v_soc'])
@@ -601,7 +607,7 @@ def _replay_accuracy(job, phase):
             phase[0] = 'soc_solve:%s:deg%d' % (sname, d)
             m, total, part = build_acc_model(fe, atom, r, z, pos)       # FRESH model for every call
             try:
-                m.soc_solve(sv, degree=d, display=False)
+                m.soc_solve(sv, degree=d, display=False, params=_params(sname))
             except Exception as e:                                # noqa
                 if not _licence_limited(e):
                     raise
